@@ -20,20 +20,44 @@ def digits(v, w=8):
     return [(v >> (8 * i)) & 0xFF for i in range(w)]
 
 
-def record_elf(rel):
+def elf_ranges(task):
+    return [(p.p_vaddr, p.p_memsz) for p in task.bin.Phdr if p.p_type == 1]
+
+
+def pe_ranges(task):
+    return [(task.bin.basemap + s.RVA, s.VirtualSize) for s in task.bin.sections]
+
+
+def macho_ranges(task):
+    from amoco.system import macho
+    return [(c.vmaddr, c.vmsize) for c in task.bin.cmds
+            if c.cmd in (macho.LC_SEGMENT, macho.LC_SEGMENT_64) and not c.segname.startswith(b"__PAGEZERO")]
+
+
+FORMATS = {
+    "elf": {"ranges": elf_ranges, "module": "LoaderTrace", "cfg": "LoaderTrace.cfg",
+            "all": ELF_SAMPLES, "quick": QUICK_ELF},
+    "pe": {"ranges": pe_ranges, "module": "PeLoadTrace", "cfg": "PeLoadTrace.cfg",
+           "all": ("x86/puttygen.exe", "x86/CoST.exe"), "quick": ("x86/puttygen.exe", "x86/CoST.exe")},
+    "macho": {"ranges": macho_ranges, "module": "MachOLoadTrace", "cfg": "MachOLoadTrace.cfg",
+              "all": ("x64/toc.osx/toc.mach-o",), "quick": ("x64/toc.osx/toc.mach-o",)},
+}
+
+
+def record(rel, ranges):
     """load one sample, return (trace line without 't', loader name) or (None, reason)"""
     path = os.path.join(SAMPLES, rel)
     data = open(path, "rb").read()
     c15.set_pagesize(4096)
     try:
-        task = c15.load(path if False else data)
+        task = c15.load(data)
     except Exception as ex:
         return None, "load_program raised %r" % (ex,)
     if task is None:
         return None, "no loader accepts the file"
     obs, exts = [], []
-    for j, p in enumerate([p for p in task.bin.Phdr if p.p_type == 1]):
-        cells = c15.read_range(task, p.p_vaddr, p.p_memsz)
+    for j, (va, n) in enumerate(ranges(task)):
+        cells = c15.read_range(task, va, n)
         wire = []
         k = 0
         while k < len(cells):
@@ -49,7 +73,7 @@ def record_elf(rel):
             else:
                 wire.append(c)
             k += 1
-        obs.append({"va": digits(p.p_vaddr), "cells": wire})
+        obs.append({"va": digits(va), "cells": wire})
     pc = c15.pc_value(task)
     entry = task.bin.entrypoints[0]
     fetch = {"a": digits(entry), "bytes": []}
@@ -64,44 +88,48 @@ def record_elf(rel):
 
 
 def run_shard(args):
-    lines, tag = args
+    module, cfg, lines, tag = args
     wd = tlc.workdir(tag)
     tf = os.path.join(wd, "loaded.ndjson")
     tlc.write_ndjson(tf, lines)
-    res = tlc.run("LoaderTrace", "LoaderTrace.cfg", env={"TRACE_FILE": tf}, workers=1, tag=tag, timeout=1800,
-                  xss="256m", xmx="3g")
+    res = tlc.run(module, cfg, env={"TRACE_FILE": tf}, workers=1, tag=tag, timeout=1800, xss="256m", xmx="3g")
     tlc.cleanup(wd)
     return res
 
 
 def run_elf(ctx, quick):
+    return run_fmt(ctx, quick, "elf")
+
+
+def run_fmt(ctx, quick, fmt):
+    F = FORMATS[fmt]
     c14.quiet()
-    names = QUICK_ELF if quick else ELF_SAMPLES
+    names = F["quick"] if quick else F["all"]
     lines, loaders = [], {}
     for t, rel in enumerate(names):
         if not os.path.exists(os.path.join(SAMPLES, rel)):
             ctx.count("samples_missing", 1)
             continue
-        line, info = record_elf(rel)
+        line, info = record(rel, F["ranges"])
         if line is None:
-            ctx.fail("C15:elf:sample-not-loaded", "sample %s: %s" % (rel, info), {"file": rel})
+            ctx.fail("C15:%s:sample-not-loaded" % fmt, "sample %s: %s" % (rel, info), {"file": rel})
             continue
         line["t"] = t
         loaders[t] = info
         lines.append(line)
     c15.set_pagesize(4096)
     if not lines:
-        raise tlc.MachineryError("no ELF sample could be recorded")
+        raise tlc.MachineryError("no %s sample could be recorded" % fmt)
     lines.sort(key=lambda l: -len(l["bytes"]))
     nsh = min(4 if quick else 6, len(lines))
     buckets = [[] for _ in range(nsh)]
     for k, l in enumerate(lines):
         buckets[k % nsh].append(l)
     with ThreadPoolExecutor(nsh) as ex:
-        results = list(ex.map(run_shard, [(b, "c15trace_%d" % k) for k, b in enumerate(buckets)]))
+        results = list(ex.map(run_shard, [(F["module"], F["cfg"], b, "c15trace_%s_%d" % (fmt, k)) for k, b in enumerate(buckets)]))
     verdicts = {}
     for res in results:
-        ctx.add_tlc(res, "T:LoaderTrace.cfg")
+        ctx.add_tlc(res, "T:" + F["cfg"])
         for r in res.printed:
             verdicts[r["t"]] = r
     for l in lines:
@@ -110,20 +138,20 @@ def run_elf(ctx, quick):
         if t not in verdicts:
             raise tlc.MachineryError("no verdict for the recording of " + rel)
         v = verdicts[t]
-        ctx.case(key=("elf-sample", rel, loaders[t]))
+        ctx.case(key=(fmt + "-sample", rel, loaders[t]))
         for sv in v["segs"]:
             if sv["clause"] != "ok":
-                ctx.fail("C15:elf:%s" % sv["clause"],
+                ctx.fail("C15:%s:%s" % (fmt, sv["clause"]),
                          "sample %s loaded by %s: segment %d, byte %d reads %r, the file maps %r (%s)"
                          % (rel, loaders[t], sv["seg"], sv["off"], sv["got"], sv["want"], sv["clause"]),
                          {"source": "T:samples", "file": rel})
         if v["pc"] != "ok":
-            ctx.fail("C15:elf:" + v["pc"], "sample %s loaded by %s: program counter %s, entry point %#x"
+            ctx.fail("C15:%s:%s" % (fmt, v["pc"]), "sample %s loaded by %s: program counter %s, entry point %#x"
                      % (rel, loaders[t], c14.dval(l["pc"]) if l["pc"] else None, c14.dval(v["entry"])), {"file": rel})
         if v["fetch"] != "ok":
-            ctx.fail("C15:elf:" + v["fetch"], "sample %s: instruction fetched at the entry point has bytes %s"
+            ctx.fail("C15:%s:%s" % (fmt, v["fetch"]), "sample %s: instruction fetched at the entry point has bytes %s"
                      % (rel, bytes(l["fetch"]["bytes"]).hex()), {"file": rel})
-        ctx.count("relocation_slots_in_samples", v.get("nslots", 0))
-        ctx.count("external_symbols_observed", len(l["exts"]))
+        ctx.count("relocation_slots_in_%s_samples" % fmt, v.get("nslots", 0))
+        ctx.count("external_symbols_observed_%s" % fmt, len(l["exts"]))
     ctx.trace(len(lines))
-    ctx.count("elf_samples_loaded", len(lines))
+    ctx.count("%s_samples_loaded" % fmt, len(lines))
